@@ -547,8 +547,9 @@ fn warm_up_process() {
     }
 }
 
-const NEIGHBOUR: &str = "Put 0 into Ticks\nWhile Ticks is less than 400000\nBuild Ticks up\n\nSay Ticks\n";
-const NEIGHBOUR_EXPECTED: &str = "Ok, said 400000";
+const NEIGHBOUR: &str = "Put 0 into Ticks\nWhile Ticks is less than 500000\nBuild Ticks up\n\nSay Ticks\n";
+const NEIGHBOUR_EXPECTED: &str = "Ok, said 500000";
+static IN_PROCESS: std::sync::RwLock<()> = std::sync::RwLock::new(());
 
 /// Observes the program once more while three other threads of this process
 /// each run the neighbour program (all four start together). Returns the
@@ -1032,6 +1033,11 @@ impl Property for C10 {
             sample: None,
             digest: key,
         };
+        // in-process observations of different scenarios go on side by side
+        // (read lock); the concurrent-neighbours part of a scenario (rule
+        // D5) has the process to itself (write lock), so that the runs going
+        // on at the same time are exactly the four it starts
+        let side_by_side = IN_PROCESS.read().unwrap_or_else(|e| e.into_inner());
         let k = if ctx.tier == Tier::Thorough { 32 } else { 8 };
         let mut configs: Vec<Config> = Vec::new();
         configs.push(Config {
@@ -1220,14 +1226,19 @@ impl Property for C10 {
 
         // runs going on at the same time on other threads of this process
         // (rule D5), for a sample of the scenarios: three neighbours count to
-        // 400 000 each while the program is observed once more; the
+        // 500 000 each while the program is observed once more; the
         // observation must be the usual one and every neighbour must get to
         // the end with the right number
-        let nth_neighbours = if ctx.tier == Tier::Thorough { 25 } else { 50 };
+        drop(side_by_side);
+        let nth_neighbours = if ctx.tier == Tier::Thorough { 100 } else { 500 };
         if ctx.index % nth_neighbours == 3 {
             stats.inc("fault.configured.concurrent_runs_on_other_threads");
             stats.inc("fault.fired.concurrent_runs_on_other_threads");
-            let (obs, neighbours) = observe_among_neighbours(&source, &input, &configs[0]);
+            let (obs, neighbours) = {
+                let _alone = IN_PROCESS.write().unwrap_or_else(|e| e.into_inner());
+                crate::driver::heartbeat();
+                observe_among_neighbours(&source, &input, &configs[0])
+            };
             res.executions += 4;
             let mut detail: Option<String> = None;
             if obs != base {
@@ -1237,7 +1248,7 @@ impl Property for C10 {
                 ));
             } else if let Some(bad) = neighbours.iter().find(|n| n.as_str() != NEIGHBOUR_EXPECTED) {
                 detail = Some(format!(
-                    "a program counting to 400000 on another thread at the same time ended with {:?} instead of {:?}",
+                    "a program counting to 500000 on another thread at the same time ended with {:?} instead of {:?}",
                     bad, NEIGHBOUR_EXPECTED
                 ));
             }
